@@ -152,8 +152,11 @@ def fresh_result(ab, cfg, use_cache, glob=None):
     """the probe in a fresh interpreter (one new process per probe)"""
     key = json.dumps([ab, cfg, use_cache, glob], sort_keys=True)
     if key in _fresh: return _fresh[key]
-    r = subprocess.run([sys.executable, '-B', '-c', FRESH % vlib.REPO], input=json.dumps([ab, cfg, use_cache, glob]) + '\n', capture_output=True, text=True, timeout=120)
-    res = tuple(json.loads(r.stdout.strip().splitlines()[-1]))
+    try:
+        r = subprocess.run([sys.executable, '-B', '-c', FRESH % vlib.REPO], input=json.dumps([ab, cfg, use_cache, glob]) + '\n', capture_output=True, text=True, timeout=25)
+        res = tuple(json.loads(r.stdout.strip().splitlines()[-1]))
+    except subprocess.TimeoutExpired:
+        res = ('no-result', 'the call did not return within 25 s in a fresh interpreter')
     _fresh[key] = res
     return res
 
